@@ -460,3 +460,123 @@ contract(Contract(
          "                    result.append(resolved)\n            elif p.is_dir():", None, ["inv-preserve"]),
     ],
 ))
+
+
+# --------------------------------------------------------------------------- _expand_glob (soundness of the filters)
+def glob_setup(ex):
+    s = ex.envs[0]["self"]
+    s.fields["_include_spec"] = ex.mk("ref:PathSpec", "include_spec")
+    s.fields["_exclude_spec"] = ex.mk("ref:PathSpec", "exclude_spec")
+
+
+def glob_yield_sound(ex):
+    """C17 glob.filtered: whatever a glob yields is a file whose name matches an include pattern, that is not too big, is
+    not matched by the tool ignore file (path relative to the glob root) and none of whose ancestor directories below the glob
+    root is excluded, by its bare name or by its relative path (the two forms _is_dir_excluded tests during traversal)"""
+    env = ex.envs[0]
+    ys = [e for e in ex.log[ex.iter_log_start:] if e[0] == "YIELD"]
+    if len(ys) > 1:
+        return False
+    if not ys:
+        return True
+    s = env["self"]
+    it0 = env["_it1"]
+    path = ex.list_get(it0, ex.z(env["_i1"] if "_i1" in env else env["_i"]) - 1)
+    if ex.eq(ys[0][1]["value"], path) is False:
+        return False
+    S = ex.th.Str
+    match = ex.th.uf("call_PathSpec_match_file", Ref, S, Bool)
+    root = ex.iter_envs[0]["root"] if "root" in ex.iter_envs[0] else env["root"]
+    rel = ex.th.uf("call_Path_relative_to", Ref, Ref, Ref)(path.t, ex.z(root))
+    name = ex.th.uf("attr_Path.name", Ref, S)(path.t)
+    parts_len = ex.th.uf("attr#len_Path.parts", Ref, Int)(rel)
+    parts_arr = ex.th.uf("attr#arr_Path.parts", Ref, z3.ArraySort(Int, S))(rel)
+    exc = ex.z(s.fields["_exclude_spec"])
+    ti = env["tool_ignore"]
+    posix = ex.th.uf("call_Path_as_posix", Ref, S)(rel)
+    base = z3.And(ex.th.uf("call_Path_is_file", Ref, Bool)(path.t),
+                  match(ex.z(s.fields["_include_spec"]), name),
+                  z3.Not(ex.th.uf("spec_exceeds", Ref, Bool)(path.t)),
+                  z3.Not(z3.And(z3.Not(ti.is_none), match(ex.z(ti.val), posix))),
+                  ex.z(ys[0][1]["value"]) == path.t)
+    slash = ex.th.lit("/")
+
+    def not_excluded(k):
+        byname = match(exc, ex.th.cat(z3.Select(parts_arr, k), slash))
+        bypath = match(exc, ex.th.cat(ex.mk_joinr(slash, parts_arr, z3.IntVal(0), k + 1), slash))
+        return FT(z3.And(z3.Not(byname), z3.Not(bypath)))
+    from vfcore.values import FAnd
+    return FAnd([FT(base), FAll("k", 0, ex.wrap(parts_len - 1, "int"), not_excluded, "no ancestor directory excluded")])
+
+
+contract(Contract(
+    target=M + ":FileResolver._expand_glob",
+    props=["C17"],
+    params={"pattern": "str"},
+    self_cls="FileResolver",
+    setup=glob_setup,
+    unknown_calls="effect",
+    types={"root": "ref:Path", "glob_part": "str", "path": "ref:Path", "rel": "ref:Path", "dirs": "list[str]",
+           "tool_ignore": "opt[ref:PathSpec]", "parts": "list[str]"},
+    calls={
+        "self._get_tool_ignore": Callee("uf", ret="opt[ref:PathSpec]", sig=["self_", "start_dir"]),
+        "Path": Callee("uf", ret="ref:Path", sig=["p"]),
+        "Path.parts": Callee("attr", ret="list[str]"),
+        "Path.name": Callee("attr", ret="str"),
+        "Path.glob": Callee("uf", ret="list[ref:Path]", sig=["self", "pattern"]),
+        "Path.is_file": Callee("uf", ret="bool", sig=["self"]),
+        "Path.relative_to": Callee("uf", ret="ref:Path", sig=["self", "other"]),
+        "Path.as_posix": Callee("uf", ret="str", sig=["self"]),
+        "PathSpec.match_file": Callee("uf", ret="bool", sig=["self", "file"]),
+        "self._exceeds_max_size": Callee("custom", handler=exceeds_uf),
+    },
+    loops={
+        0: Loop(inv={}),
+        1: Loop(inv={}, body_ensures={"glob_yield_sound": Clause(glob_yield_sound, props=["C17"])}),
+    },
+    canaries=[
+        ("                if not self._exceeds_max_size(path):\n                    yield path", "                yield path", ["C17"], ["glob_yield_sound"]),
+        ("                if tool_ignore and tool_ignore.match_file(rel.as_posix()):\n                    continue\n", "", ["C17"], ["glob_yield_sound"]),
+        ('                    or self._exclude_spec.match_file("/".join(dirs[: k + 1]) + "/")\n', "", ["C17"], ["glob_yield_sound"]),
+        ('self._exclude_spec.match_file(part + "/")\n                    or ', "", ["C17"], ["glob_yield_sound"]),
+    ],
+))
+
+
+# --------------------------------------------------------------------------- _should_include_explicit
+def explicit_setup(ex):
+    s = ex.envs[0]["self"]
+    s.fields["_config"] = VObj("FileResolverConfig", {"force_exclude": ex.mk("bool", "force_exclude")})
+    s.fields["_exclude_spec"] = ex.mk("ref:PathSpec", "exclude_spec")
+
+
+contract(Contract(
+    target=M + ":FileResolver._should_include_explicit",
+    props=["C17"],
+    params={"path": "ref:Path"},
+    self_cls="FileResolver",
+    setup=explicit_setup,
+    types={"rel": "str", "part": "str"},
+    calls={
+        "Path.name": Callee("attr", ret="str"),
+        "Path.parts": Callee("attr", ret="list[str]"),
+        "PathSpec.match_file": Callee("uf", ret="bool", sig=["self", "file"]),
+        "self._exceeds_max_size": Callee("custom", handler=exceeds_uf),
+    },
+    loops={0: Loop(inv={"none_excluded_so_far": "all(not call('PathSpec.match_file', self._exclude_spec, path.parts[j] + '/')"
+                                               " for j in range(_i))"},
+                   decreases="len(path.parts) - 1 - _i")},
+    ensures={
+        # explicit files bypass the exclusion rules unless force_exclude, but never the size limit
+        "size_limit_always": Clause(lambda ex: z3.Implies(ex.b(ex.truth(ex.envs[0]["result"])),
+                                                          z3.Not(ex.th.uf("spec_exceeds", Ref, Bool)(ex.z(ex.envs[0]["path"]))))),
+        "bypass_unless_forced": Clause(lambda ex: z3.Implies(
+            z3.Not(ex.b(ex.truth(ex.old_envs[0]["self"].fields["_config"].fields["force_exclude"]))),
+            ex.b(ex.truth(ex.envs[0]["result"])) == z3.Not(ex.th.uf("spec_exceeds", Ref, Bool)(ex.z(ex.envs[0]["path"]))))),
+        "forced_name_excluded": "implies(self._config.force_exclude and call('PathSpec.match_file', self._exclude_spec, path.name), not result)",
+    },
+    canaries=[
+        ("        if self._exceeds_max_size(path):\n            return False\n        return True", "        return True", None, ["post[size_limit_always"]),
+        ("        if self._config.force_exclude:\n", "        if True:\n", None, ["post[bypass_unless_forced"]),
+    ],
+))
